@@ -1379,6 +1379,12 @@ def get_call_node_child_edges(session: Session, ids: Iterable[str]) -> Iterable[
     for (child_id,) in filter_in(session.query(CallEdge.child_id), CallEdge.parent_id, ids):
         yield "CallNode.child_call_node", CallNode, child_id
 
+    # Get the tasks of the CallNode subtree (used by shallow cache validity checks).
+    for (task_hash,) in filter_in(
+        session.query(CallSubtreeTask.task_hash), CallSubtreeTask.call_hash, ids
+    ):
+        yield "CallNode.subtree_task", Task, task_hash
+
 
 def get_value_child_edges(session: Session, ids: Iterable[str]) -> Iterable[RecordEdgeType]:
     # Get Value subvalue ids.
